@@ -197,7 +197,7 @@ def gen_case(rng, max_ops, maxL):
             o['data'] = rnd_matrix(rng, L_, n); o['zeros_then_fill'] = rng.random() < 0.3
         ops.append(o); meta.append([L_, sp, 0, identity])
     new(L); new(L, sp=rng.choice([meta[0][1], meta[0][1], 'R', 'F', 'N']))
-    if rng.random() < 0.5: new(1, sp='N')
+    if rng.random() < 0.6: new(1, sp=rng.choice(['N', 'N', 'R', 'F']))      # length-1 operands (density-like), in every space
     if rng.random() < 0.3: new(L, identity=True)
     for _ in range(rng.randint(1, max_ops)):
         full = [i for i, m in enumerate(meta) if m[0] == L]
